@@ -180,6 +180,14 @@ static void do_sched()
         ref->RFKickMap::_calcKick(q0[j][0], q0[j][1]);
         printf("ref"); for (auto x : ref->_offset) pf(x); printf("\n");
     }
+    // (family st3drv) the static kick at the record's phase with relative amplitude 1 and 0: the kick is affine in the
+    // relative amplitude, so the amplitude an apply really used can be recovered from its offsets (lib/props/C19.py)
+    for (size_t j = 0; j < q0.size(); j++) {
+        ref->RFKickMap::_calcKick(q0[j][0], 1);
+        printf("ref1"); for (auto x : ref->_offset) pf(x); printf("\n");
+        ref->RFKickMap::_calcKick(q0[j][0], 0);
+        printf("ref0"); for (auto x : ref->_offset) pf(x); printf("\n");
+    }
     size_t napply = 0;
     for (char c : ops) {
         if (c == 'A') {
